@@ -51,6 +51,8 @@ func NewJavaFullListener(nodes map[string]core_domain.CodeDataStruct, file strin
 	classStringQueue = nil
 	classNodeQueue = nil
 	methodQueue = nil
+	mapFields = make(map[string]string)
+	resetMethodScope()
 
 	initClass()
 	return &JavaFullListener{}
@@ -66,6 +68,12 @@ func initClass() {
 	methodCalls = nil
 	fields = nil
 	isOverrideMethod = false
+}
+
+// parameters and local variables belong to one method or constructor
+func resetMethodScope() {
+	localVars = make(map[string]string)
+	formalParameters = make(map[string]string)
 }
 
 type JavaFullListener struct {
@@ -282,6 +290,7 @@ func (s *JavaFullListener) EnterAnnotation(ctx *parser.AnnotationContext) {
 }
 
 func (s *JavaFullListener) EnterConstructorDeclaration(ctx *parser.ConstructorDeclarationContext) {
+	resetMethodScope()
 	name := ctx.Identifier().GetText()
 	position := BuildPosition(ctx.BaseParserRuleContext, name)
 
@@ -309,6 +318,7 @@ func (s *JavaFullListener) ExitConstructorDeclaration(ctx *parser.ConstructorDec
 }
 
 func (s *JavaFullListener) EnterMethodDeclaration(ctx *parser.MethodDeclarationContext) {
+	resetMethodScope()
 	name := ""
 
 	if ctx.Identifier() != nil {
